@@ -171,6 +171,12 @@ impl Prop for C11 {
                 let outcome = [Sec::Valid, so_p, so_r];
                 match what.clone() {
                     What::Valve { players, rules, relation, check } => {
+                        // path 0: the protocol's query function; path 1: the definition-driven entry point with every setting
+                        // given; path 2 (check on only): the same with check_app_id left out, which means on
+                        for path in 0 .. 3u8 {
+                        if path == 2 && !check {
+                            continue;
+                        }
                         let engine = if relation == 3 { valve::Engine::Source(None) } else { valve::Engine::new_with_dedicated(440, 441) };
                         let appid: u16 = match relation {
                             0 | 3 => 440,
@@ -187,7 +193,19 @@ impl Prop for C11 {
                         let server = rv::ValveServer::new(st.clone(), t);
                         let gs = valve::GatheringSettings { players, rules, check_app_id: check };
                         let policy = Sections { valve: true, outcome: [outcome[0], outcome[1], outcome[2]], cur: 0, recvs_in_unit: 0 };
-                        let x = run_query(Box::new(server), Box::new(policy), Chooser::new(&[]), || valve::query(&addr(), engine, Some(gs), None));
+                        let x = run_query(Box::new(server), Box::new(policy), Chooser::new(&[]), || {
+                            if path == 0 {
+                                return valve::query(&addr(), engine, Some(gs), None);
+                            }
+                            let game = gamedig::Game { name: "C11", default_port: 27015, protocol: gamedig::protocols::types::Protocol::Valve(engine), request_settings: Default::default() };
+                            let extra = gamedig::protocols::types::ExtraRequestSettings { hostname: None, protocol_version: None, gather_players: Some(players), gather_rules: Some(rules), check_app_id: if path == 2 { None } else { Some(check) } };
+                            let a = addr();
+                            let r = gamedig::query_with_timeout_and_extra_settings(&game, &a.ip(), Some(a.port()), None, Some(extra))?;
+                            match r.as_original() {
+                                gamedig::protocols::GenericResponse::Valve(v) => Ok(v.clone()),
+                                _ => Err(GDErrorKind::PacketBad.into()),
+                            }
+                        });
                         ctx.account(&x, 0);
                         let sent_kinds: Vec<u8> = x.log.iter().filter_map(|e| if let WireEvent::Send { bytes, .. } = e { bytes.get(4).copied() } else { None }).collect();
                         let full = rv::expected(&st, false, &engine, true, true);
@@ -226,7 +244,7 @@ impl Prop for C11 {
                                 expect = Ok(resp);
                             }
                         }
-                        let cfg = format!("players {players:?}/{} rules {rules:?}/{}", section_kind(so_p), section_kind(so_r));
+                        let cfg = format!("players {players:?}/{} rules {rules:?}/{}{}", section_kind(so_p), section_kind(so_r), ["", "; through the definition-driven entry point", "; through the definition-driven entry point with check_app_id left out"][path as usize]);
                         let mut bad: Option<(String, String)> = None;
                         if players == GatherToggle::Skip && sent_kinds.contains(&0x55) {
                             bad = Some(("skipped-section-requested:valve:players".into(), "a players request was sent although the toggle is Skip".into()));
@@ -261,6 +279,7 @@ impl Prop for C11 {
                         } else if so_p != Sec::Valid && so_r == Sec::Valid {
                             ctx.sample(serde_json::json!({"case": label, "sections": cfg, "outcome": x.outcome.class(), "request_kinds": sent_kinds}));
                         }
+                    }
                     }
                     What::Unreal2 { players, rules } => {
                         let st = u2_seed();
